@@ -94,6 +94,9 @@ func TestC08(t *testing.T) {
 				res.Violatef("a notification received before the stop was never handled", in, "%s; log: %s", n, shortLog(r.Log))
 			}
 		}
+		if len(r.Leaked) > 0 {
+			res.Violatef("goroutine left behind after WaitStatus returned: "+r.Leaked[0], in, "%v; log: %s", r.Leaked, shortLog(r.Log))
+		}
 		c10Report(res, "server", r.sch.st, in, 1)
 		if sc.Restart && r.Status != nil {
 			okOut, okStatus := false, false
@@ -139,6 +142,9 @@ func TestC08(t *testing.T) {
 				if rng.Intn(2) == 0 {
 					sc.Ops = insertOp(rng, sc.Ops, envOp{Kind: "stop"})
 				}
+				if sc.AllowPush {
+					sc.Ops = insertOp(rng, sc.Ops, envOp{Kind: "callback", Arg: "k7"})
+				}
 			case 5:
 				sc.Ops = insertOp(rng, sc.Ops, envOp{Kind: "stop"})
 				sc.Ops = insertOp(rng, sc.Ops, envOp{Kind: "stop"})
@@ -157,6 +163,8 @@ func TestC08(t *testing.T) {
 			{Concurrency: 1, Restart: true, Ops: []envOp{{Kind: "send", Arg: reqCall(1, "c1", "ok")}, {Kind: "stop"}, {Kind: "send", Arg: `{bad`}}},
 			{Concurrency: 1, Restart: true, Ops: []envOp{{Kind: "send", Arg: reqNote("n1", "ok")}, {Kind: "send", Arg: reqNote("n2", "ok")}, {Kind: "send", Arg: `{"jsonrpc":"2.0","method":"m","params":["n3","ok"],"zz":1}`}, {Kind: "stop"}}},
 			{Concurrency: 2, AllowPush: true, Restart: true, Ops: []envOp{{Kind: "send", Arg: reqCall(1, "c1", "ok")}, {Kind: "callback", Arg: "k1"}, {Kind: "stop"}}},
+			{Concurrency: 2, AllowPush: true, SendFailAt: 1, Ops: []envOp{{Kind: "callback", Arg: "k1"}, {Kind: "send", Arg: reqCall(1, "c1", "ok")}, {Kind: "stop"}}},
+			{Concurrency: 2, AllowPush: true, SendFailAt: 2, Ops: []envOp{{Kind: "notify", Arg: "p1"}, {Kind: "callback", Arg: "k1"}, {Kind: "callback", Arg: "k2"}, {Kind: "close"}}},
 		}
 		for _, sc := range corpus {
 			for j := 0; j < pick(60, 600); j++ {
